@@ -56,6 +56,9 @@ PoolC10 == << Cmd("MeasureHomodyne", <<ENum(A0), ENum(Q(1, 2))>>, <<0>>, FALSE),
               Cmd("Zgate", <<EAff(Two, 0, Q(-1, 1), Zero)>>, <<1>>, FALSE),
               Cmd("Xgate", <<EProd(0)>>, <<1>>, TRUE),
               Cmd("Dgate", <<EAff(Zero, -1, One, Q(1, 4)), ENum(a345)>>, <<1>>, FALSE),
+              \* a numeric partner: together with the gate above it is the identity for the binding x = 1/4 only -- an optimiser
+              \* must not cancel the pair because of the value x happens to be bound to
+              Cmd("Dgate", <<ENum(Q(-1, 2)), ENum(a345)>>, <<1>>, FALSE),
               Cmd("Sgate", <<ENum(Q(4, 3)), ENum(A0)>>, <<0>>, FALSE),
               Cmd("BSgate", <<ENum(a345), ENum(APi2)>>, <<0, 1>>, FALSE),
               Cmd("MeasureHomodyne", <<ENum(a345), ENum(Q(-1, 2))>>, <<1>>, FALSE),
